@@ -497,6 +497,32 @@ fn alternatives(i: usize, v: i64) -> Vec<i64> {
     a
 }
 
+fn stored_field(p: &Parsed, i: usize) -> Option<i64> {
+    match i {
+        F_YEAR => p.year().map(|x| x as i64),
+        F_YDIV => p.year_div_100().map(|x| x as i64),
+        F_YMOD => p.year_mod_100().map(|x| x as i64),
+        F_IY => p.isoyear().map(|x| x as i64),
+        F_IYDIV => p.isoyear_div_100().map(|x| x as i64),
+        F_IYMOD => p.isoyear_mod_100().map(|x| x as i64),
+        F_Q => p.quarter().map(|x| x as i64),
+        F_MONTH => p.month().map(|x| x as i64),
+        F_WSUN => p.week_from_sun().map(|x| x as i64),
+        F_WMON => p.week_from_mon().map(|x| x as i64),
+        F_IW => p.isoweek().map(|x| x as i64),
+        F_WD => p.weekday().map(|w| w.num_days_from_monday() as i64),
+        F_ORD => p.ordinal().map(|x| x as i64),
+        F_DAY => p.day().map(|x| x as i64),
+        F_AMPM => p.hour_div_12().map(|x| x as i64),
+        F_H12 => p.hour_mod_12().map(|x| if x == 0 { 12 } else { x as i64 }),
+        F_MIN => p.minute().map(|x| x as i64),
+        F_SEC => p.second().map(|x| x as i64),
+        F_NANO => p.nanosecond().map(|x| x as i64),
+        F_TS => p.timestamp(),
+        _ => p.offset().map(|x| x as i64),
+    }
+}
+
 fn setter_histories(acc: &mut Acc) {
     for i in 0..NF {
         let mut vals: Vec<i64> = vec![-1, 0, 1, 2, 4, 5, 6, 7, 11, 12, 13, 23, 24, 31, 32, 52, 53, 54, 59, 60, 61, 99, 100, 365, 366, 367, 999_999_999, 1_000_000_000, 2024, -2024, 86399, 86400];
@@ -538,36 +564,18 @@ fn setter_histories(acc: &mut Acc) {
             }
             if ra.is_ok() {
                 // the stored value is the supplied one
-                let stored: Option<i64> = match i {
-                    F_YEAR => p.year().map(|x| x as i64),
-                    F_YDIV => p.year_div_100().map(|x| x as i64),
-                    F_YMOD => p.year_mod_100().map(|x| x as i64),
-                    F_IY => p.isoyear().map(|x| x as i64),
-                    F_IYDIV => p.isoyear_div_100().map(|x| x as i64),
-                    F_IYMOD => p.isoyear_mod_100().map(|x| x as i64),
-                    F_Q => p.quarter().map(|x| x as i64),
-                    F_MONTH => p.month().map(|x| x as i64),
-                    F_WSUN => p.week_from_sun().map(|x| x as i64),
-                    F_WMON => p.week_from_mon().map(|x| x as i64),
-                    F_IW => p.isoweek().map(|x| x as i64),
-                    F_WD => p.weekday().map(|w| w.num_days_from_monday() as i64),
-                    F_ORD => p.ordinal().map(|x| x as i64),
-                    F_DAY => p.day().map(|x| x as i64),
-                    F_AMPM => p.hour_div_12().map(|x| x as i64),
-                    F_H12 => p.hour_mod_12().map(|x| if x == 0 { 12 } else { x as i64 }),
-                    F_MIN => p.minute().map(|x| x as i64),
-                    F_SEC => p.second().map(|x| x as i64),
-                    F_NANO => p.nanosecond().map(|x| x as i64),
-                    F_TS => p.timestamp(),
-                    _ => p.offset().map(|x| x as i64),
-                };
+                let stored = stored_field(&p, i);
                 if stored != Some(a) {
                     acc.violation(&format!("Parsed::set_{}:stored", NAMES[i]), format!("Parsed::new().set_{}({}) then the accessor", NAMES[i], a), format!("Some({})", a), format!("{:?}", stored));
                 }
             }
             if ra.is_err() {
                 acc.hit_nt(SET_OOR);
-                // a rejected value leaves the field unset: any value can still be set
+                // a rejected value is not stored: the set of supplied fields is still empty
+                acc.transitions += 1;
+                if p != Parsed::new() {
+                    acc.violation(&format!("Parsed::set_{}:rejected-but-stored", NAMES[i]), format!("Parsed::new().set_{}({}) -> {:?}, then the fields", NAMES[i], a, ra), "no field set".into(), format!("{:?}", p));
+                }
                 continue;
             }
             for &b in &vals {
@@ -585,7 +593,22 @@ fn setter_histories(acc: &mut Acc) {
                 } else {
                     acc.hit_nt(SET_NE);
                 }
+                // accepted or refused, the field still holds the first value and nothing else appeared
+                if q != p {
+                    acc.violation(&format!("Parsed::set_{}:twice-changes-state", NAMES[i]), format!("Parsed::new().set_{}({}) then set_{}({}) -> {:?}", NAMES[i], a, NAMES[i], b, rb), format!("fields as after the first call (value {})", a), format!("{:?}", stored_field(&q, i)));
+                }
             }
+        }
+    }
+    // set_hour outside 0..=23 (incl. values that alias an hour under a narrowing cast) is refused and stores nothing
+    for h in [-1i64, 24, 25, 36, 48, 255, 256, 256 + 5, 65536 + 13, (1 << 32) + 5, (1 << 32) + 23, -(1 << 32) + 7, i64::MAX, i64::MIN, u32::MAX as i64, u32::MAX as i64 + 1] {
+        let mut p = Parsed::new();
+        let r = p.set_hour(h);
+        acc.transitions += 1;
+        if r.is_ok() || p != Parsed::new() {
+            acc.violation("Parsed::set_hour:domain", format!("Parsed::new().set_hour({})", h), "Err(OutOfRange), nothing stored".into(), format!("{:?}, {:?}", r, p));
+        } else {
+            acc.hit_nt(SET_OOR);
         }
     }
     // set_hour sets both clock fields: consistent with ampm + hour12
